@@ -23,7 +23,8 @@ RULE = ("stream 1: random translation units, expression batches in 22 contexts, 
         "exhaustive derivation-sequence / statement-tree sweeps from the model generators, each under a random layout "
         "(whitespace, minimal spacing, linemarkers) and parenthesisation; stream 2: semantic-generator programs accepted "
         "by gcc -std=c99/-std=c11 -pedantic-errors -fsyntax-only; stream 3: zoo + preprocessed repository files + benchmark "
-        "files. Non-trivial: >= 10 tokens; distinct = distinct source texts.")
+        "files; identifier-role x near-keyword sweep and trigger-free declaration histories of the C04 scope model (both with "
+        "gcc-validated factors). Non-trivial: >= 10 tokens; distinct = distinct source texts.")
 ASSUMPTIONS = ["stream 1 texts are valid by construction of the generator grammar; constructs that trigger the open findings "
                "K08/K09/K11/K12/K13 are not generated in the main stream and are exercised by a witness slice with neutralised twins",
                "gcc 12 -pedantic-errors is the independent acceptor of stream 2"]
@@ -113,6 +114,9 @@ def plan(tier, seed):
     specs.append({"name": "kf", "mode": "kf"})
     for i in range(2):
         specs.append({"name": f"names-{i}", "mode": "names", "shard": i, "nshards": 2})
+    for i in range(2):
+        specs.append({"name": f"scope-{i}", "mode": "scope", "shard": i, "nshards": 2, "n": 1500 if tier == "quick" else 30000,
+                      "rseed": seed * 53 + i})
     for i in range(4):
         specs.append({"name": f"scaled-{i}", "mode": "scaled", "shard": i, "nshards": 4, "kmax": 150 if tier == "quick" else 600,
                       "pads": 330 if tier == "quick" else 1100})
@@ -230,6 +234,43 @@ def run_shard(spec):
         elif spec["mode"] == "corpus":
             for name, text in corpus.zoo() + corpus.repo_files() + corpus.big_files():
                 one(text, name, {"file": name}, "corpus")
+        elif spec["mode"] == "scope":
+            # declaration histories of the C04 scope model (typedef / object / tag / label / parameter / for-init /
+            # block events over clashing names): every history without a known-finding trigger is a valid program
+            import itertools
+            from . import c04
+            alphabet = [(e, n) for e in c04.BLOCK_EVENTS for n in (c04.NAMES if e not in c04.NEUTRAL_EVENTS else ["-"])]
+            rnd = random.Random(spec["rseed"])
+
+            def hist(seq, u_kind, param=None, pstyle=0):
+                P = c04.build_program(u_kind, seq, param, False, False, pstyle=pstyle)
+                if P is None or P.triggers:
+                    return
+                one("\n".join(P.lines) + "\n", "scope.c", {"scope_history": [list(x) for x in seq], "u_kind": u_kind, "param": param,
+                                                            "pstyle": pstyle}, "scope")
+            k = 0
+            for L in (1, 2):
+                for seq in itertools.product(alphabet, repeat=L):
+                    k += 1
+                    if k % spec["nshards"] == spec["shard"]:
+                        hist(list(seq), "typedef" if k % 4 < 2 else "obj")
+            # every history of three events that starts with a loop whose body the parser has to look past
+            for first in [a for a in alphabet if a[0] in ("for_if", "forif", "for", "ifnoelse")]:
+                for rest in itertools.product(alphabet, repeat=2):
+                    k += 1
+                    if k % spec["nshards"] == spec["shard"]:
+                        hist([first] + list(rest), "obj" if k % 3 else "typedef")
+            for i in range(spec["n"]):
+                seq = []
+                opened = 0
+                for _ in range(rnd.randrange(3, 9)):
+                    e, nm = rnd.choice(alphabet)
+                    if e == "close" and not opened:
+                        continue
+                    opened += (e == "open") - (e == "close")
+                    seq.append((e, nm))
+                param = rnd.choice(c04.NAMES) if rnd.random() < 0.3 else None
+                hist(seq, rnd.choice(["typedef", "obj"]), param, rnd.randrange(len(c04.PSTYLES)) if param else 0)
         elif spec["mode"] == "names":
             # identifier-role sweep: (template valid for an ordinary identifier) x (word that is an ordinary identifier in
             # C99/C11).  gcc validates each factor separately: the template with a neutral name, and `int <word>;`
